@@ -37,7 +37,7 @@ static J gen_case(Chooser &ch)
   c["has_section"] = w.root.has("cross section");
   c["sph"] = w.fr.sph; c["R"] = w.fr.R; c["H"] = w.fr.H;
   c["has_output_dir"] = static_cast<int>(ch.range(0, 2)); // 0 = null pointer, 1 = &false, 2 = &true
-  c["output_dir"] = ch.pick<std::string>({"<null>", "", "out/", "o/", "deep/er/", "x y/"});
+  c["output_dir"] = ch.pick<std::string>({"<null>", "", "out/", "o/", "deep/er/", "x y/", "pre_", "out/run1_"}); // a plain prefix: "x/" is a directory, "pre_" a file name prefix
   c["seed"] = ch.pick<double>({1.0, 0.0, 12345.0, 8589934599.0, 4294967295.0});
   J qs = g::gen_queries(ch, w, static_cast<int>(ch.range(1, 6)), 85);
   for (auto &q : qs.a)
@@ -76,7 +76,7 @@ static Result check_case(const J &c)
   const std::string od = c.at("output_dir").str();
   const bool od_null = od == "<null>";
   const std::string od_eff = od_null ? "" : od;
-  if (!od_eff.empty()) { std::string cmd = "mkdir -p '" + base + "/" + od_eff + "'"; if (std::system(cmd.c_str())) {} }
+  if (od_eff.find('/') != std::string::npos) { std::string cmd = "mkdir -p '" + base + "/" + od_eff.substr(0, od_eff.rfind('/') + 1) + "'"; if (std::system(cmd.c_str())) {} }
   const unsigned long seed = static_cast<unsigned long>(c.at("seed").num());
 
   void *cw = nullptr;
@@ -105,6 +105,32 @@ static Result check_case(const J &c)
           }
       }
   }
+  // (1b) the C++ wrapper class with the same arguments writes the same files as the native constructor: the path is a plain prefix
+  if (has)
+    {
+      const std::string b2 = base + "-cpp";
+      { std::string cmd = "rm -rf '" + b2 + "' && mkdir -p '" + b2 + "'"; if (std::system(cmd.c_str())) {} }
+      if (od_eff.find('/') != std::string::npos) { std::string cmd = "mkdir -p '" + b2 + "/" + od_eff.substr(0, od_eff.rfind('/') + 1) + "'"; if (std::system(cmd.c_str())) {} }
+      if (::chdir(b2.c_str()) != 0) throw std::runtime_error("chdir failed");
+      std::string err;
+      try { wrapper_cpp::WorldBuilderWrapper XW(wbfile, true, od_eff, seed); }
+      catch (const std::exception &e) { err = e.what(); }
+      std::vector<std::string> files;
+      list_files(b2, "", files);
+      std::sort(files.begin(), files.end());
+      if (::chdir(base.c_str()) != 0) throw std::runtime_error("chdir failed");
+      const std::vector<std::string> want = {"world_builder_declarations.schema.json", "world_builder_declarations.tex", "world_builder_declarations_closed.md", "world_builder_declarations_open.md"};
+      std::vector<std::string> expect;
+      for (auto &wn : want) expect.push_back(od_eff + wn);
+      std::sort(expect.begin(), expect.end());
+      r.classes.push_back("C++ wrapper class with an output path");
+      if (!err.empty() || files != expect)
+        {
+          std::string sfiles;
+          for (auto &x : files) sfiles += x + " ";
+          return Result::fail("cpp-output-dir-not-honoured", "WorldBuilderWrapper(file, true, \"" + od_eff + "\") " + (err.empty() ? "wrote [" + sfiles + "]" : "threw '" + err.substr(0, 150) + "'") + "; the native constructor writes the four declaration files with that prefix");
+        }
+    }
   // native world with the same arguments (no output dir: it does not influence answers)
   WB::World N(wbfile, false, "", seed);
   wrapper_cpp::WorldBuilderWrapper X(wbfile, false, "", seed);
